@@ -15,6 +15,13 @@ R03.5 rows of two collections are associated by name, never by position: no zip(
 R03.6 the array-backed and the annotatable alignment class mean the same thing by 'gap' in their sibling implementations: both test the single gap ...
 R03.7 the two branches of an option give the same callee the same kind of value: where both branches of one `if` call the same function with the same ...
 R03.8 slicing a gap map clamps like slicing a string: in IndelMap.__getitem__[slice] every arithmetic use of the slice's stop (a length `stop - start`, an ...
+
+Added later in build rounds 2-3 (see DESIGN.md section 3, round-2/3 table):
+R03.10 an integer index on an aligned sequence / gap map selects one position for EVERY index a string accepts: where the int overload of __getitem__ ...
+R03.11 the index-type dispatch of Alignment.__getitem__ is exhaustive: the object it returns is assigned on every path that reaches the return (each ...
+R03.12 a column predicate is used through its truth value: in the filtered() implementations the value of predicate(...) reaches comparisons (==, !=) only ...
+R03.13 building a collection from rows that belong to another collection leaves those rows alone: the _construct_* helpers of the alignment module never ...
+R03.9 concatenating gap maps keeps the map canonical: IndelMap.__add__ merges a gap run that ends the left map with one that starts the right map (a test ...
 """
 
 from __future__ import annotations
